@@ -140,11 +140,13 @@ def emission_equivalence(check, P):
                 return orig(I_, callee, args, kwargs, node)
             I.ext_result = ext_result
 
+            FEED = Num(Poly.sym("caller.F"))
+
             def entry(I_, _):
                 if what == "parametric":
-                    return W.call_method(I_, "tracer", "parametric", (Unk("arg.function", "hook"), Num(Poly.sym("arg.length"))), {})
+                    return W.call_method(I_, "tracer", "parametric", (Unk("arg.function", "hook"), Num(Poly.sym("arg.length"))), {"F": FEED})
                 pts = [L.target(mode, S[0], 3), L.target(mode, S[1], 3, prev=S[0]), L.target(mode, S[2], 3, prev=S[1])]
-                return W.call_method(I_, "tracer", "polyline", (I_.alloc(AList(pts)),), {})
+                return W.call_method(I_, "tracer", "polyline", (I_.alloc(AList(pts)),), {"F": FEED})
             visited = None
             for path in I.explore(L.setup(mode, "CLOCKWISE"), entry, max_dev=None, max_paths=3000):
                 n += 1
@@ -152,15 +154,19 @@ def emission_equivalence(check, P):
                     continue
                 m = Machine({a: p for a, p in zip(AX, O)}, mode)
                 seq = []
+                codes_ = []
                 for e in path.trace:
                     if is_writer_delivery(e):
                         st = Statement(e.data["args"][0], e)
                         m.execute(st, path.facts)
                         if any(c in ("G0", "G1") for c in st.codes()):
                             seq.append(tuple(m.pos[a].key() if m.pos[a] is not UNKNOWN else "?" for a in AX))
+                            from ..traceutil import words as _words
+                            fw = [v for l, v, stt, how in _words(st, path.facts, letters=("F",)) if l == "F"]
+                            codes_.append((tuple(st.codes()), fw[0].p.key() if fw and isinstance(fw[0], Num) else None))
                 visited = seq
                 g = path.heap[W.ref("g").addr]
-                results[(what, mode)] = (seq, linv[:1])
+                results[(what, mode)] = (seq, linv[:1], codes_)
             if visited is None:
                 check.floor(False, f"C11.R2: {what} has no accepted path in {mode} mode")
     want = [tuple(p.key() for p in s) for s in S]
@@ -173,6 +179,11 @@ def emission_equivalence(check, P):
         else:
             check.violation("R2", f"{what}:positions", f"{what}: machine positions in absolute mode {a[0]}, in relative mode {r[0]}; expected the samples {want} in both",
                             ["each sample must be converted with to_distance_mode and emitted with move()"])
+        for mode_, res_ in (("absolute", a), ("relative", r)):
+            if all(c == ("G1",) and f_ == "caller.F" for c, f_ in res_[2]) and len(res_[2]) == len(want):
+                check.ok("R2", f"{what} ({mode_}): every segment is a G1 move carrying the caller's extra words")
+            else:
+                check.violation("R2", f"{what}:segment-words", f"{what} in {mode_} mode emits {res_[2]}; expected one G1 per sample, each with the caller's F word", [])
         if what == "parametric":
             lv = a[1][0] if a[1] else None
             ok = isinstance(lv, LinV) and lv.dropped == 1 and lv.endpoint == TRUE and _is_const(lv.start, 0) and _is_const(lv.stop, 1)
